@@ -24,7 +24,13 @@ PARTIAL = ['C10_dollars_closing_first_partial, C10_dollars_read_math_partial, C1
            'inline $..$ formulas with text bodies, any size) satisfying ok_doc, the parse has exactly one chars node in text mode per '
            'maximal text run and one inline math node ($,$, recorded in text mode) per formula whose body is one chars node in math '
            'mode with delimiter $; the math nodes of the parse are the formulas of the document. Partial w.r.t. DESIGN: the core '
-           'grammar has no $$..$$ display item (covered by (a)-(c) above); formula bodies are text only.']
+           'grammar has no $$..$$ display item (covered by (a)-(c) above); formula bodies are text only.',
+           'C10_dollars_grammar2_partial, C10_dollars_math_nodes2_partial, C10_dollars_tree2_partial (composition with '
+           'C02_parse_unparse2_partial, Proofs/Compose2Dollars.v): the same for EVERY dollar document WITH display formulas (text '
+           'runs, inline $..$ and display $$..$$ formulas with text bodies, any size) satisfying ok_doc2: one math node per formula, '
+           'display flag and delimiters as written ($a$$b$ = two inline formulas and $$a$$ = one display formula are instances, '
+           'C10_dollars_two_inline_instance / C10_dollars_one_display_instance). Partial w.r.t. DESIGN only in that formula bodies '
+           'are text only (for the recorded modes of arbitrary bodies: C10_modes_grammar2, every document of the extended grammar).']
 REFUTED = []
 CASE_TIMEOUT = 10.0
 case_from_desc = PC.case_from_desc
